@@ -17,7 +17,7 @@ BOUNDS = "2- and 3-way conditionals, unequal branch lengths, work after the join
 EXPLANATION = ("real Simulator.simulate() on all feasible paths, every branch draw explored; at the end, for every completed conditional: exactly one child was released, it had non-zero weight, "
                "every task on an untaken branch up to (excluding) the join is CANCELLED and never started, the join and its successors completed exactly once")
 REQUIRED_LABELS = ["C07:exactly-one-child-released", "C07:released-child-has-nonzero-probability", "C07:untaken-branch-cancelled", "C07:untaken-branch-never-started",
-                   "C07:join-and-successors-complete-once", "C07:branch-is-the-one-resolved-at-submission"]
+                   "C07:join-and-successors-complete-once", "C07:join-starts-after-the-taken-branch", "C07:branch-is-the-one-resolved-at-submission"]
 CJ = ("C", "a", "b", "J")
 
 
